@@ -123,6 +123,41 @@ Proof.
   apply rule_keeps; assumption.
 Qed.
 
+(* completeness direction of the partial-write rule: the use of the old value that [classify] adds for a partial write is
+   NECESSARY, not merely cautious - some byte of the virtual register keeps its old content whatever the instruction computes,
+   so two executions that differ in that byte of the old register differ in the new register. Conversely a write that is not
+   partial never lets an old byte of the virtual register through. *)
+Lemma nonzero_has_bit (a : N) : a <> 0%N -> exists i, N.testbit a i = true.
+Proof. intros H. exists (N.log2 a). apply N.bit_log2. exact H. Qed.
+
+Theorem partial_write_keeps_a_byte r :
+  is_partial r = true ->
+  exists i, (i < r_vsize r)%nat /\ forall old res, hw_byte (r_wmask r) (r_emask r) old res i = byte i old.
+Proof.
+  unfold is_partial. intros H. apply negb_true_iff in H. apply N.eqb_neq in H.
+  destruct (nonzero_has_bit _ H) as [n Hn]. rewrite N.ldiff_spec in Hn. apply andb_true_iff in Hn. destruct Hn as [Hl Hc].
+  apply negb_true_iff in Hc.
+  exists (N.to_nat n). assert (Hm : mbit (low_mask (r_vsize r)) (N.to_nat n) = true) by (unfold mbit; rewrite N2Nat.id; exact Hl).
+  rewrite low_mask_bit in Hm. apply Nat.ltb_lt in Hm. split; [exact Hm|].
+  intros old res. unfold hw_byte, mbit. rewrite N2Nat.id. unfold covered in Hc. rewrite N.lor_spec in Hc.
+  apply orb_false_iff in Hc. destruct Hc as [-> ->]. reflexivity.
+Qed.
+
+Theorem partial_write_needs_old_value r :
+  is_partial r = true ->
+  exists i, (i < r_vsize r)%nat /\ forall res, hw_byte (r_wmask r) (r_emask r) 0 res i <> hw_byte (r_wmask r) (r_emask r) (256 ^ Z.of_nat i) res i.
+Proof.
+  intros H. destruct (partial_write_keeps_a_byte r H) as [i [Hi Hk]]. exists i. split; [exact Hi|]. intros res. rewrite !Hk.
+  unfold byte. rewrite Z.div_0_l by (apply Z.pow_nonzero; lia). rewrite Z.div_same by (apply Z.pow_nonzero; lia). cbn. discriminate.
+Qed.
+
+Theorem covering_write_ignores_old_value r old old' res :
+  is_partial r = false ->
+  forall i, (i < r_vsize r)%nat -> hw_byte (r_wmask r) (r_emask r) old res i = hw_byte (r_wmask r) (r_emask r) old' res i.
+Proof.
+  unfold is_partial. intros H. apply negb_false_iff in H. apply N.eqb_eq in H. apply rule_covered. exact H.
+Qed.
+
 (* ------------------------------------------------------------------ idiom table: value semantics of the tagged operations *)
 Local Open Scope Z_scope.
 Definition trb (w : nat) (x : Z) : Z := x mod 2 ^ (8 * Z.of_nat w).
@@ -236,3 +271,42 @@ Proof. destruct op; cbn; intros H; try reflexivity; exfalso; apply H; reflexivit
 
 Theorem idiom_other_none same imm w : idiom_of AOther same imm w = INone.
 Proof. destruct imm, same; reflexivity. Qed.
+
+(* ------------------------------------------------------------------ read side: the use width covers the read mask *)
+(* For a register operand that is read (no narrowing by a memory form, x86): every byte the instruction reads according to
+   its read mask lies below the use width that classify emits - and that use is always part of the result, whatever
+   the write side adds. *)
+Lemma pos_testbit_size p : forall n, Pos.testbit p n = true -> (N.to_nat n < Pos.size_nat p)%nat.
+Proof.
+  induction p as [p IH|p IH|]; intros n H; cbn [Pos.size_nat].
+  - destruct n as [|q]; [cbn; lia|]. cbn [Pos.testbit] in H. apply IH in H.
+    rewrite Pos.pred_N_succ in H || idtac. destruct q; cbn in *; lia.
+  - destruct n as [|q]; [discriminate|]. cbn [Pos.testbit] in H. apply IH in H. destruct q; cbn in *; lia.
+  - destruct n as [|q]; [cbn; lia|discriminate].
+Qed.
+
+Lemma mbit_below_msb m i : mbit m i = true -> (i < msb_width m)%nat.
+Proof.
+  unfold mbit, msb_width. destruct m as [|p]; [cbn; discriminate|]. cbn [N.testbit N.size_nat]. intros H.
+  apply pos_testbit_size in H. rewrite Nat2N.id in H. exact H.
+Qed.
+
+Lemma classify_keeps_read_use a64 id r : r_read r = true -> id <> IWO -> In (read_width a64 r) (fst (classify a64 id r)).
+Proof.
+  intros Hr Hid. unfold classify. rewrite Hr. assert (Hm : match id with IWO => false | _ => true end = true) by (destruct id; [reflexivity|contradiction|reflexivity]).
+  rewrite Hm. cbn [andb].
+  destruct (r_write r && negb (keeps id r)); [|left; reflexivity].
+  destruct (is_partial r); [|left; reflexivity].
+  destruct (existsb _ _); cbn [fst]; [left; reflexivity|apply in_or_app; left; left; reflexivity].
+Qed.
+
+Theorem classify_read_covers_mask id r :
+  r_read r = true -> id <> IWO -> r_ismem r = false -> (r_write r = true \/ r_isrm r = false \/ r_rm r = O) ->
+  forall i, mbit (r_rmask r) i = true -> exists u, In u (fst (classify false id r)) /\ (i < u)%nat.
+Proof.
+  intros Hr Hid Hmem Hrm i Hi. exists (read_width false r). split; [apply classify_keeps_read_use; assumption|].
+  unfold read_width. cbn [andb]. rewrite Hmem.
+  assert (Hc : (negb (r_write r) && r_isrm r && negb (Nat.eqb (r_rm r) 0) && Nat.ltb (r_rm r) (msb_width (r_rmask r))) = false).
+  { destruct Hrm as [H|[H|H]]; rewrite H; cbn; [reflexivity|rewrite andb_false_r; reflexivity|rewrite andb_false_r; reflexivity]. }
+  rewrite Hc. apply mbit_below_msb. exact Hi.
+Qed.
